@@ -3,7 +3,7 @@
 # scratch worktree of /repo, say whether the translators accept the source and which lemma stops checking.
 # Works on a private copy of coq/ (PCFG_COQ), so the gen files of this worktree are not touched.
 #   sh docs/tie_tests/T16/quick_probe.sh [name-prefix ...]
-V=/tmp/vb_T16
+V=$(cd "$(dirname "$0")/../../.." && pwd)
 SC=/tmp/sc_T16_probe
 CQ=/tmp/sc_T16_probe_coq
 D=$V/docs/tie_tests/T16
